@@ -20,7 +20,12 @@ RULE = ("one source per case: a rule with two text patterns plus 1-3 fixable fea
         "fields/functions, constant on either side, chained, in and/or/not/paren/for contexts), `0 of` over 4 sets (optionally `in`), "
         "duplicate imports (same line, with comments, three times), consecutive jumps (7 shapes, two groups per pattern), hex patterns "
         "expressible as text (random printable bytes and every escapable byte, all 95 printable bytes, `private`), deprecated dotnet "
-        "fields, case-constrained hash comparisons (constants with escapes), optionally a second rule; corpus of directed cases first. "
+        "fields, case-constrained hash comparisons (constants with escapes), parenthesised operands (nested, with spaces/comments/line breaks "
+        "inside), optionally a second rule; corpus of directed cases first. Every sixth case is a pair of files in a temporary directory: "
+        "main.yar with a fixable rule before and after `include \"common.yar\"` (3 layouts) and common.yar with a fixable rule; one case "
+        "per file with the patches whose origin() is that file: each patch must name the file whose text its span covers (span text "
+        "matches the diagnostic, token boundaries of that file), applying the patches per origin must leave the set compiling with the "
+        "diagnostics gone, and `yr fix warnings --include-dir` on a copy must leave each file as the model says. "
         "Per case: patches of Compiler::warnings(); bounds, token boundaries, disjointness, reference application, recompilation, "
         "remaining diagnostics, scan dumps of original vs fixed rules on 10+ buffers built from the patterns' own bytes; for a subset "
         "the real `yr fix warnings` on a temporary copy vs the Coq model. Distinct = distinct sources with >= 1 patch.")
